@@ -297,6 +297,8 @@ class _ExprCanon(ast.NodeTransformer):
 
     def visit_UnaryOp(self, node: ast.UnaryOp):
         self.generic_visit(node)
+        if isinstance(node.op, ast.UAdd) and isinstance(node.operand, ast.Constant) and isinstance(node.operand.value, (int, float)) and not isinstance(node.operand.value, bool):
+            return node.operand  # `+1` (left behind by substituting an offset argument)
         if isinstance(node.op, ast.Not):
             r = simplify_test(node)
             # `not X` is a bool; its simplification (`not not e` -> `e`, `not len(e) == 0` -> `e`) only has e's truth value
@@ -428,6 +430,19 @@ class _ExprCanon(ast.NodeTransformer):
 
     def visit_Call(self, node: ast.Call):
         self.generic_visit(node)
+        # getattr(x, 'name')  ->  x.name
+        if isinstance(node.func, ast.Name) and node.func.id == "getattr" and len(node.args) == 2 and not node.keywords \
+                and isinstance(node.args[1], ast.Constant) and isinstance(node.args[1].value, str) and node.args[1].value.isidentifier():
+            return _loc(ast.Attribute(value=node.args[0], attr=node.args[1].value, ctx=ast.Load()), node)
+        # f(*(a, b))  ->  f(a, b)
+        if any(isinstance(a_, ast.Starred) and isinstance(a_.value, (ast.Tuple, ast.List)) for a_ in node.args):
+            new_args: List[ast.expr] = []
+            for a_ in node.args:
+                if isinstance(a_, ast.Starred) and isinstance(a_.value, (ast.Tuple, ast.List)):
+                    new_args.extend(a_.value.elts)
+                else:
+                    new_args.append(a_)
+            node.args = new_args
         # dict(a=x, b=y) -> {'a': x, 'b': y}
         if isinstance(node.func, ast.Name) and node.func.id == "dict" and not node.args and node.keywords and all(k.arg is not None for k in node.keywords):
             return _loc(ast.Dict(keys=[ast.Constant(value=k.arg) for k in node.keywords], values=[k.value for k in node.keywords]), node)
@@ -895,6 +910,21 @@ class BlockCanon:
             return st
         if isinstance(st, (ast.With, ast.AsyncWith)):
             st.body = self.block(st.body, tail)
+            # with x as v: BODY  ->  with x: BODY[v := x]   (x a plain name: the package's own context manager, the tree,
+            # returns itself from __enter__ - rule LOCK checks that)
+            if isinstance(st, ast.With) and len(st.items) == 1 and isinstance(st.items[0].context_expr, ast.Name) and isinstance(st.items[0].optional_vars, ast.Name):
+                xn, vn = st.items[0].context_expr.id, st.items[0].optional_vars.id
+                if xn != vn and not any(isinstance(x, ast.Name) and x.id in (vn, xn) and isinstance(x.ctx, (ast.Store, ast.Del)) for b_ in st.body for x in ast.walk(b_)) \
+                        and not any(isinstance(x, FuncNode + (ast.Lambda,)) for b_ in st.body for x in ast.walk(b_)):
+                    class _Ren2(ast.NodeTransformer):
+                        def visit_Name(self, n: ast.Name):
+                            if n.id == vn:
+                                n.id = xn
+                            return n
+
+                    st.body = [_Ren2().visit(b_) for b_ in st.body]
+                    st.items[0].optional_vars = None
+                    self.changed = True
             # with suppress(E): BODY  ->  try: BODY  except E: pass
             if isinstance(st, ast.With) and len(st.items) == 1 and st.items[0].optional_vars is None and isinstance(st.items[0].context_expr, ast.Call) \
                     and norm_name(st.items[0].context_expr.func) in ("suppress", "contextlib.suppress") and st.items[0].context_expr.args and not st.items[0].context_expr.keywords:
@@ -2234,6 +2264,11 @@ class TailSinker:
                     continue
                 if not is_pure(S.test):
                     continue
+            elif isinstance(S, ast.For):
+                # a short loop over what the branches chose (`for n in changed: ...`)
+                if S.orelse or sum(1 for _x in ast.walk(S) if isinstance(_x, ast.stmt)) > 8 or any(isinstance(_x, (ast.While, ast.Try, ast.With) + FuncNode) for _x in ast.walk(S)) \
+                        or not is_pure(S.iter):
+                    continue
             elif not isinstance(S, (ast.Expr, ast.Assign, ast.AugAssign, ast.AnnAssign, ast.Return)):
                 continue
             if any(isinstance(x, (ast.Lambda, ast.NamedExpr)) for x in ast.walk(S)):
@@ -2254,7 +2289,7 @@ class TailSinker:
                         d[s_.target.id] = s_
                 return d
 
-            reads_S = {x.id for x in ast.walk(S.test if isinstance(S, ast.If) else S) if isinstance(x, ast.Name) and isinstance(x.ctx, ast.Load)}
+            reads_S = {x.id for x in ast.walk(S.test if isinstance(S, ast.If) else (S.iter if isinstance(S, ast.For) else S)) if isinstance(x, ast.Name) and isinstance(x.ctx, ast.Load)}
             writes_S = {x.id for x in ast.walk(S) if isinstance(x, ast.Name) and isinstance(x.ctx, (ast.Store, ast.Del))}
             per = [chosen(lf) for lf in live]
             V = set.intersection(*[set(d) for d in per]) & reads_S
@@ -2457,8 +2492,61 @@ def _list_iadd_to_extend(fn) -> bool:
     return changed
 
 
+def _dict_update_to_setitem(fn) -> bool:
+    """`d.update(k=v)` / `d.update({'k': v})` as a statement -> `d['k'] = v` for a local that is only ever bound to dict
+    displays / dict comprehensions / dict()."""
+    own = list(_own_nodes(fn))
+    binds: Dict[str, List[ast.AST]] = {}
+    for n in own:
+        if isinstance(n, ast.Assign):
+            for t in n.targets:
+                for x in ast.walk(t):
+                    if isinstance(x, ast.Name) and isinstance(x.ctx, ast.Store):
+                        binds.setdefault(x.id, []).append(n.value if t is x else None)
+        elif isinstance(n, ast.AnnAssign) and isinstance(n.target, ast.Name) and n.value is not None:
+            binds.setdefault(n.target.id, []).append(n.value)
+        elif isinstance(n, (ast.For, ast.comprehension)):
+            for x in ast.walk(n.target):
+                if isinstance(x, ast.Name):
+                    binds.setdefault(x.id, []).append(None)
+    params = _params(fn)
+
+    def is_dict(v) -> bool:
+        return isinstance(v, (ast.Dict, ast.DictComp)) or (isinstance(v, ast.Call) and isinstance(v.func, ast.Name) and v.func.id == "dict")
+
+    dicts = {k for k, vs in binds.items() if k not in params and vs and all(v is not None and is_dict(v) for v in vs)}
+    changed = False
+    if not dicts:
+        return False
+    for blk in SingleUseInliner._blocks(fn):
+        i = 0
+        while i < len(blk):
+            st = blk[i]
+            c = st.value if isinstance(st, ast.Expr) and isinstance(st.value, ast.Call) else None
+            if c is not None and isinstance(c.func, ast.Attribute) and c.func.attr == "update" and isinstance(c.func.value, ast.Name) and c.func.value.id in dicts:
+                pairs = None
+                if not c.args and c.keywords and all(k.arg is not None for k in c.keywords):
+                    pairs = [(ast.Constant(value=k.arg), k.value) for k in c.keywords]
+                elif len(c.args) == 1 and not c.keywords and isinstance(c.args[0], ast.Dict) and all(k is not None for k in c.args[0].keys):
+                    pairs = list(zip(c.args[0].keys, c.args[0].values))
+                if pairs and len(pairs) == 1:
+                    new = []
+                    for k, v in pairs:
+                        tgt = ast.Subscript(value=ast.Name(id=c.func.value.id, ctx=ast.Load()), slice=k, ctx=ast.Store())
+                        a_ = ast.Assign(targets=[tgt], value=v)
+                        for x in ast.walk(a_):
+                            ast.copy_location(x, st)
+                        new.append(a_)
+                    blk[i:i + 1] = new
+                    changed = True
+            i += 1
+    return changed
+
+
 def _canon_function_inner(fn, may_write, single_use: bool = True) -> bool:
     changed = _list_iadd_to_extend(fn) if enabled("C2") else False
+    if enabled("C2"):
+        changed = _dict_update_to_setitem(fn) or changed
     for _ in range(6):
         round_changed = False
         ec = _ExprCanon()
@@ -2580,7 +2668,11 @@ def _inline_new_constants(modules: Dict[str, ast.Module], known: Set[str]) -> in
                 v = st.value
                 lit = isinstance(v, ast.Constant) and (v.value is None or isinstance(v.value, (str, int, float, bool)))
                 neg = isinstance(v, ast.UnaryOp) and isinstance(v.op, ast.USub) and isinstance(v.operand, ast.Constant) and isinstance(v.operand.value, (int, float))
-                if lit or neg:
+                # a tuple of literals / dotted constants (`("dc", DC.ADDED)`) is as good as a literal
+                tup = isinstance(v, ast.Tuple) and v.elts and all(
+                    (isinstance(x, ast.Constant) and (x.value is None or isinstance(x.value, (str, int, float, bool)))) or (norm_name(x) and "." in norm_name(x) and norm_name(x).split(".")[0][:1].isupper())
+                    for x in v.elts)
+                if lit or neg or tup:
                     cands[tgt.id] = v
         if not cands:
             continue
